@@ -149,6 +149,12 @@ def run(repo, run, tier):
     # (every sub-step evaluates the right-hand side once, at its own argument; no slope carried over from another call, whose constants may have changed)
     from .c02 import splitting_clock
     splitting_clock(repo, run, rule_id="C01.9")
+    # 'Richardson wrappers with 2..5 levels': the class handed out for (basis, levels) is the one built for exactly those arguments
+    from .common import instance_tables_are_class_tables
+    instance_tables_are_class_tables(repo, run, "C01.11")
+    from .common import memo_discipline
+    memo_discipline(repo, run, "C01.10", ["desolver/integrators/integrator_types.py", "desolver/integrators/__init__.py", "desolver/integrators/integrator_template.py"],
+                    "the integrator factories")
 
 
 # ------------------------------------------------------------------------------------------------
